@@ -161,6 +161,29 @@ def initMeshGamma (rev : Rev) (meshIsLength isGammaCenter useIterMesh : Bool) : 
   let forced := if meshIsLength then true else isGammaCenter     -- `_is_gamma_center`
   if useIterMesh then (if rev.f12 then forced else isGammaCenter) else forced
 
+/-! ## band paths with several segments: which approach direction each point is solved with
+
+`_solve_dm_on_path(path)` is called once per segment; with a NAC dynamical matrix it computes
+`q_direction = path[0] - path[-1]` when the segment's end points are collinear with Γ (the segment
+crosses or ends at Γ), `None` otherwise, and solves *every* point of the segment, including a first
+point shared with the previous segment, with `run(q, q_direction=q_direction)`.  Nothing is carried
+from one segment to the next. -/
+
+structure Seg where
+  throughGamma : Bool   -- |cross(b·path[0], b·path[-1])| < Q_DIRECTION_TOLERANCE
+  npts : Nat
+deriving DecidableEq, Repr
+
+/-- direction label used by segment number `k`: its own direction, or none -/
+def segDir (k : Nat) (s : Seg) : Option Nat := if s.throughGamma then some k else none
+
+def bandDirsAux : Nat → List Seg → List (List (Option Nat))
+  | _, [] => []
+  | k, s :: r => List.replicate s.npts (segDir k s) :: bandDirsAux (k + 1) r
+
+/-- per segment, per point: the direction the point is solved with -/
+def bandDirs (segs : List Seg) : List (List (Option Nat)) := bandDirsAux 0 segs
+
 /-! ## band connection (estimate_band_connection) -/
 
 /-- one row of the greedy matching: scan `i = n-1 … 0`, skip taken columns, keep the first strictly
